@@ -5,7 +5,7 @@ import json
 from concurrent.futures import ThreadPoolExecutor
 
 from pipelines import pipeline, spec_must_hold, B1
-from vlib import Infra, CORES
+from vlib import Infra, LibraryPanic, CORES
 
 FAMILIES = 9
 PRESETS = 7
@@ -109,8 +109,23 @@ def epoch_traces(ctx, replay, prop):
         return {}
     ctx.vh_binary(pkg="vh_genome")
     with ThreadPoolExecutor(max_workers=max(2, min(CORES - 2, 12))) as ex:
-        results = list(ex.map(lambda a: record_and_validate(ctx, a[0] + 100, a[1]), enumerate(groups)))
+        def guarded(a):
+            try:
+                return record_and_validate(ctx, a[0] + 100, a[1])
+            except LibraryPanic as e:
+                return {"panic": e, "scs": a[1]}
+        results = list(ex.map(guarded, enumerate(groups)))
     stats, nonconf = {}, []
+    for res in [r for r in results if "panic" in r]:
+        # goNEAT panicked in a goroutine of its own (parallel executor) and took the recorder down: for C02 ("turning over an
+        # epoch succeeds") that is the violation; the other properties that share these traces cannot decide without them
+        if prop != "C02":
+            raise res["panic"]
+        e = res["panic"]
+        ctx.violation("a reproduction goroutine of the parallel executor panicked while the scenarios %s ... were evolved: %s"
+                      % (json.dumps(res["scs"][:2]), e.excerpt[:600]), "C02 goroutine panic",
+                      {"kind": "epochs", "scenario": res["scs"][0] if res["scs"] else None, "panic": e.excerpt})
+    results = [r for r in results if "panic" not in r]
     for res in results:
         ctx.traces += len(res["scs"])
         ctx.evaluations += res["events"]
